@@ -1,6 +1,7 @@
 package main
 
 import (
+	"encoding/binary"
 	"errors"
 	"fmt"
 	"os"
@@ -290,6 +291,229 @@ func runSST(args []string) error {
 				emitScan(M{"t": "scanrange", "lo": r[0], "hi": r[1]}, it, err2)
 			}
 			rd.Close()
+		}
+		os.RemoveAll(dir)
+	}
+	return nil
+}
+
+// ---- engine "sstdamage" (C09): damage data.rio of a generated table in every enumerated way and record what readers return
+
+type dmgCase struct {
+	Writes []sstWrite `json:"writes"`
+	DComp  int        `json:"dcomp"`
+	Step   int        `json:"step"`  // byte offsets visited: every Step-th (1 = all)
+	Kinds  []string   `json:"kinds"` // byte | trunc | swap
+}
+
+type dmgIn struct {
+	Keys  []string          `json:"keys"`
+	Vals  map[string]string `json:"vals"`
+	Dir   string            `json:"dir"`
+	Cases []dmgCase         `json:"cases"`
+}
+
+func init() { register("sstdamage", runSSTDamage) }
+
+func runSSTDamage(args []string) error {
+	var in dmgIn
+	if err := readJSON(args[0], &in); err != nil {
+		return err
+	}
+	tr, err := newTrace(args[1])
+	if err != nil {
+		return err
+	}
+	defer tr.close()
+	keys := make([][]byte, len(in.Keys))
+	rank := map[string]int{}
+	for i, h := range in.Keys {
+		keys[i] = unhex(h)
+		rank[string(keys[i])] = i
+	}
+	vals := map[string][]byte{}
+	tokOf := map[string]string{}
+	for t, h := range in.Vals {
+		vals[t] = unhex(h)
+		tokOf[string(vals[t])] = t
+	}
+	vb := func(t string) []byte {
+		if t == "NIL" {
+			return nil
+		}
+		if t == "EMPTY" {
+			return []byte{}
+		}
+		return vals[t]
+	}
+	vt := func(b []byte) string {
+		if b == nil {
+			return "NIL"
+		}
+		if len(b) == 0 {
+			return "EMPTY"
+		}
+		if t, ok := tokOf[string(b)]; ok {
+			return t
+		}
+		return fmt.Sprintf("UNKNOWN(len=%d)", len(b))
+	}
+	cmp := skiplist.BytesComparator{}
+	for ci, c := range in.Cases {
+		dir := filepath.Join(in.Dir, fmt.Sprintf("d%d", ci))
+		os.MkdirAll(dir, 0o700)
+		w, err := sstables.NewSSTableStreamWriter(sstables.WriteBasePath(dir), sstables.WithKeyComparator(cmp), sstables.DataCompressionType(c.DComp),
+			sstables.WriteBufferSizeBytes(4096))
+		if err != nil {
+			return err
+		}
+		if err := w.Open(); err != nil {
+			return err
+		}
+		orig := []any{}
+		var wkeys []int
+		for _, wr := range c.Writes {
+			if err := w.WriteNext(keys[wr.K], vb(wr.V)); err != nil {
+				return err
+			}
+			orig = append(orig, []any{wr.K, wr.V})
+			wkeys = append(wkeys, wr.K)
+		}
+		if err := w.Close(); err != nil {
+			return err
+		}
+		dataPath := filepath.Join(dir, sstables.DataFileName)
+		data, err := os.ReadFile(dataPath)
+		if err != nil {
+			return err
+		}
+		tr.emit(M{"t": "reset", "case": ci})
+		tr.emit(M{"t": "dmgtable", "orig": orig, "size": len(data)})
+		// record extents by an independent walk over the v4 framing
+		var starts []int
+		for off := 8; off < len(data); {
+			hl := headerLen(data[off:])
+			if hl == 0 {
+				break
+			}
+			_, k := binary.Uvarint(data[off:])
+			isNil := data[off+k] == 1
+			ulen, k2 := binary.Uvarint(data[off+k+1:])
+			clen, _ := binary.Uvarint(data[off+k+1+k2:])
+			stored := int(ulen)
+			if c.DComp != 0 {
+				stored = int(clen)
+			}
+			if isNil {
+				stored = 0
+			}
+			starts = append(starts, off)
+			off += hl + stored
+		}
+		starts = append(starts, len(data))
+
+		probe := func(kind string, off, val int, content []byte) {
+			os.WriteFile(dataPath, content, 0o600)
+			for _, mode := range []string{"load", "read"} {
+				ropts := []sstables.ReadOption{sstables.ReadBasePath(dir), sstables.ReadWithKeyComparator(cmp)}
+				if mode == "read" {
+					ropts = append(ropts, sstables.SkipHashCheckOnLoad(), sstables.EnableHashCheckOnReads())
+				}
+				ev := M{"t": "dmg", "kind": kind, "off": off, "val": val, "mode": mode, "open": "ok", "gets": []string{}, "scan": [][]any{}, "scanend": "ok",
+					"range": [][]any{}, "rangeend": "ok"}
+				func() {
+					defer func() {
+						if r := recover(); r != nil {
+							ev["open"] = fmt.Sprintf("panic: %v", r)
+						}
+					}()
+					rd, err := sstables.NewSSTableReader(ropts...)
+					if err != nil {
+						ev["open"] = "err"
+						return
+					}
+					defer rd.Close()
+					gets := []string{}
+					for _, k := range wkeys {
+						v, err := rd.Get(keys[k])
+						if err != nil {
+							gets = append(gets, "err")
+						} else {
+							gets = append(gets, vt(v))
+						}
+					}
+					ev["gets"] = gets
+					drainTo := func(it sstables.SSTableIteratorI, err error, outKey, endKey string) {
+						out := [][]any{}
+						if err != nil {
+							ev[endKey] = "err"
+							ev[outKey] = out
+							return
+						}
+						for n := 0; n < 10000; n++ {
+							k, v, err := it.Next()
+							if errors.Is(err, sstables.Done) {
+								break
+							}
+							if err != nil {
+								ev[endKey] = "err"
+								break
+							}
+							r, ok := rank[string(k)]
+							if !ok {
+								r = -2
+							}
+							out = append(out, []any{r, vt(v)})
+						}
+						ev[outKey] = out
+					}
+					it, err := rd.Scan()
+					drainTo(it, err, "scan", "scanend")
+					if len(wkeys) > 0 {
+						it, err = rd.ScanRange(keys[wkeys[0]], keys[wkeys[len(wkeys)-1]])
+						drainTo(it, err, "range", "rangeend")
+					}
+				}()
+				tr.emit(ev)
+			}
+		}
+		step := c.Step
+		if step < 1 {
+			step = 1
+		}
+		for _, kind := range c.Kinds {
+			switch kind {
+			case "byte":
+				for off := 0; off < len(data); off += step {
+					for _, v := range []byte{data[off] ^ 1, data[off] ^ 2, data[off] ^ 4, data[off] ^ 8, data[off] ^ 16, data[off] ^ 32, data[off] ^ 64, data[off] ^ 128, 0x00, 0xff, 0x91, 0x8d, 0x4c} {
+						if v == data[off] {
+							continue
+						}
+						cp := append([]byte{}, data...)
+						cp[off] = v
+						probe("byte", off, int(v), cp)
+					}
+				}
+			case "trunc":
+				for n := 0; n < len(data); n += step {
+					probe("trunc", n, 0, data[:n])
+				}
+			case "swap":
+				for i := 0; i+1 < len(starts)-1; i++ {
+					for j := i + 1; j < len(starts)-1; j++ {
+						if j > i+3 {
+							break
+						}
+						a, b := data[starts[i]:starts[i+1]], data[starts[j]:starts[j+1]]
+						cp := append([]byte{}, data[:starts[i]]...)
+						cp = append(cp, b...)
+						cp = append(cp, data[starts[i+1]:starts[j]]...)
+						cp = append(cp, a...)
+						cp = append(cp, data[starts[j+1]:]...)
+						probe("swap", i, j, cp)
+					}
+				}
+			}
 		}
 		os.RemoveAll(dir)
 	}
